@@ -272,6 +272,23 @@ fn decompress_multiple_internal(
     // Check progress after initial setup
     monitor.check_progress(current_data.len() as u64)?;
 
+    // The stream between two stages can be longer than the final data: the ADPCM stream of a
+    // handful of samples carries a header and start values. It is held to the bound its own
+    // decoder is given; the size limit of the file applies to the output of the last stage.
+    let stage_monitor = DecompressionMonitor {
+        max_size: monitor.max_size.max(buffer_size as u64),
+        max_time: monitor.max_time,
+        start_time: monitor.start_time,
+        bytes_decompressed: std::sync::Arc::clone(&monitor.bytes_decompressed),
+        should_cancel: std::sync::Arc::clone(&monitor.should_cancel),
+    };
+    let after_primary = if has_pkware || has_adpcm {
+        &stage_monitor
+    } else {
+        monitor
+    };
+    let after_pkware = if has_adpcm { &stage_monitor } else { monitor };
+
     // Step 1: Decompress the primary compression method
     if has_huffman {
         log::debug!("Decompressing Huffman in multi-compression mode");
@@ -283,26 +300,26 @@ fn decompress_multiple_internal(
         // For Huffman, we don't know the intermediate size, so we estimate conservatively
         let huffman_output_size = std::cmp::max(expected_size * 2, current_data.len() * 2);
         current_data = algorithms::huffman::decompress(&current_data, huffman_output_size)?;
-        monitor.check_progress(current_data.len() as u64)?;
+        after_primary.check_progress(current_data.len() as u64)?;
         log::debug!("After Huffman: {} bytes", current_data.len());
     } else if has_zlib {
         log::debug!("Decompressing Zlib");
         current_data = algorithms::zlib::decompress(&current_data, expected_size * 4)?;
-        monitor.check_progress(current_data.len() as u64)?;
+        after_primary.check_progress(current_data.len() as u64)?;
     } else if has_bzip2 {
         log::debug!("Decompressing BZip2");
         // Only the size after the last stage is known here, so the intermediate
         // stream cannot be checked against an exact size
         current_data = algorithms::bzip2::decompress_unsized(&current_data, expected_size * 4)?;
-        monitor.check_progress(current_data.len() as u64)?;
+        after_primary.check_progress(current_data.len() as u64)?;
     } else if has_sparse {
         log::debug!("Decompressing Sparse");
         current_data = algorithms::sparse::decompress(&current_data, expected_size * 4)?;
-        monitor.check_progress(current_data.len() as u64)?;
+        after_primary.check_progress(current_data.len() as u64)?;
     } else if has_implode {
         log::debug!("Decompressing Implode");
         current_data = algorithms::implode::decompress(&current_data, expected_size * 4)?;
-        monitor.check_progress(current_data.len() as u64)?;
+        after_primary.check_progress(current_data.len() as u64)?;
     }
 
     // Step 2: Decompress PKWare if present
@@ -311,7 +328,7 @@ fn decompress_multiple_internal(
         // PKWare expected size should be estimated based on current data size
         let pkware_output_size = std::cmp::max(expected_size, current_data.len() * 2);
         current_data = algorithms::pkware::decompress(&current_data, pkware_output_size)?;
-        monitor.check_progress(current_data.len() as u64)?;
+        after_pkware.check_progress(current_data.len() as u64)?;
     }
 
     // Step 3: Decompress ADPCM if present (applied last since it was first during compression)
